@@ -127,6 +127,8 @@ pub struct Obs {
     pub timeout_deadline_wall_ns: Option<u64>,
     pub spawn_panic: Option<String>,
     pub panic_fired: bool,
+    /// assert_properties() returned normally at a moment when is_done() (read afterwards) was false
+    pub assert_ok_before_done: bool,
 }
 
 #[derive(Clone)]
@@ -213,11 +215,34 @@ fn finals<C: Checker<GModel>>(c: &C, want_assert: bool) -> Finals {
 }
 
 /// Drives a spawned checker: optional polls, join, final observations.
+fn early_assert<C: Checker<GModel>>(checker: &C, flag: &std::cell::Cell<bool>) {
+    // as a user would do on a checker that is still running: the verdict must not be positive yet
+    let ok = catch_unwind(AssertUnwindSafe(|| checker.assert_properties()));
+    match ok {
+        Ok(()) => {
+            if !checker.is_done() {
+                flag.set(true);
+            }
+        }
+        Err(e) => {
+            if e.is::<SimShutdown>() {
+                std::panic::resume_unwind(e)
+            }
+        }
+    }
+}
+
+thread_local!(static EARLY_ASSERT: std::cell::Cell<bool> = const { std::cell::Cell::new(false) });
+
 fn drive<C: Checker<GModel>>(
     sc: &S1Scenario,
     sched: &Sched,
     checker: C,
 ) -> (JoinOutcome, Option<Finals>, Option<(u64, u64)>) {
+    EARLY_ASSERT.with(|f| f.set(false));
+    if sc.polls > 0 && sc.graph.panic.is_none() {
+        EARLY_ASSERT.with(|f| early_assert(&checker, f));
+    }
     if sc.strategy == Strategy::OnDemand {
         checker.run_to_completion();
     }
@@ -343,6 +368,7 @@ pub fn run_s1(sc: &S1Scenario) -> Obs {
         join_returned_at_step: at.map(|a| a.1),
         timeout_deadline_wall_ns: timeout_deadline,
         spawn_panic,
+        assert_ok_before_done: EARLY_ASSERT.with(|f| f.get()),
         panic_fired: sc.graph.panic.is_some() && !model.panic_armed.load(std::sync::atomic::Ordering::SeqCst),
     }
 }
